@@ -206,7 +206,7 @@ func c12StatusGens() []c12StatusGen {
 					form = "e"
 				}
 			}
-			return c, fmt.Sprintf("c12ctl promLabels o %s %s", form, c12Out(fails))
+			return c, fmt.Sprintf("c12ctl promLabels o %s o %s", form, c12Out(fails))
 		}},
 		{"prom/label_values", func(r *h.Rng) (*c12Case, string) {
 			c := &c12Case{Endpoint: "prom/label_values"}
